@@ -461,6 +461,79 @@ let handle line =
           let (tid, e) = List.nth tr p in
           let exp = (match qcstep c' tid with Some (_, e') -> string_of_ev e' | None -> "thread-cannot-move") in
           Printf.sprintf "= rejected pos=%d thread=%d got=%s expected=%s" p (to_int tid) (string_of_ev e) exp))
+  | "CTRACEP" :: keep :: toks ->
+    (* projected acceptance: only events on the object classes listed in [keep] (comma list of
+       map,tk,cnt,stats,gen) are compared; the model performs the other steps of a thread silently
+       when that thread next has a compared event (or at the end).  Sound for properties whose
+       proofs depend only on the evolution of the kept objects. *)
+    (match !conc with
+     | None -> "= error no config"
+     | Some c0 ->
+       let keeps = String.split_on_char ',' keep in
+       let cls = function
+         | EInsert _ | ERemove _ | EGet _ | EIter _ -> "map"
+         | EPush _ | EPop _ -> "tk"
+         | EFetchAdd (o, _, _) | EFetchSub (o, _, _) | ELoad (o, _) ->
+           (match o with OVis | OHid | OCnt -> "cnt" | OGen -> "gen" | _ -> "stats") in
+       let kept e = List.mem (cls e) keeps in
+       let obj_class o = (match o with "vis" | "hid" | "cnt" -> "cnt" | "gen" -> "gen" | _ -> "stats") in
+       let tr = List.filter_map (fun tok ->
+           if tok = "" then None else
+             match String.split_on_char '~' tok with
+             | [tid; f] when String.length f > 3 && String.sub f 0 3 = "ST:" ->
+               (* a plain store: the model never stores; compared only if its object class is kept
+                  (then it is rejected as an event the model cannot produce) *)
+               (match String.split_on_char ':' f with
+                | _ :: o :: _ when not (List.mem (obj_class o) keeps) -> None
+                | _ -> Some (nat_of_int (int_of_string tid), EIter (n_of_string "18446744073709551615")))
+             | tid :: fields -> let e = ev_of_fields fields in
+               if kept e then Some (nat_of_int (int_of_string tid), e) else None
+             | [] -> None) toks in
+       let rec to_int = function O -> 0 | S n -> 1 + to_int n in
+       (* advance thread [tid] silently up to its next kept event; returns the config before that event *)
+       let rec next_kept c tid guard =
+         if guard = 0 then (c, None) else
+           match cstep mf c tid with
+           | None -> (c, None)
+           | Some (c', e') -> if kept e' then (c, Some (c', e')) else next_kept c' tid (guard - 1) in
+       let rec go c tr pos =
+         match tr with
+         | [] -> (c, None)
+         | (tid, e) :: rest ->
+           (match next_kept c tid 100000 with
+            | (_, Some (c', e')) when ev_eqb e e' -> go c' rest (pos + 1)
+            | (cb, Some (_, e')) -> (cb, Some (pos, to_int tid, string_of_ev e, string_of_ev e'))
+            | (cb, None) -> (cb, Some (pos, to_int tid, string_of_ev e, "thread-has-no-more-compared-steps"))) in
+       let (c1, bad) = go c0 tr 0 in
+       (match bad with
+        | Some (pos, tid, got, exp) ->
+          conc := Some c1;
+          Printf.sprintf "= rejected pos=%d thread=%d got=%s expected=%s" pos tid got exp
+        | None ->
+          (* flush: every thread runs to completion; no compared event may be left *)
+          let n = List.length c1.cf_threads in
+          let extra = ref None in
+          let c = ref c1 in
+          for i = 0 to n - 1 do
+            let fin = ref false and guard = ref 100000 in
+            while not !fin && !guard > 0 do
+              decr guard;
+              (match cstep mf !c (nat_of_int i) with
+               | None -> fin := true
+               | Some (c', e') ->
+                 if kept e' && !extra = None then extra := Some (i, string_of_ev e');
+                 c := c')
+            done
+          done;
+          conc := Some !c;
+          let l = level_of_shared (!c).cf_sh in
+          ses.lvl <- l; ses.gen <- (!c).cf_sh.sh_gen;
+          (match !extra with
+           | Some (i, e) -> Printf.sprintf "= rejected pos=end thread=%d got=nothing expected=%s" i e
+           | None ->
+             let rets = String.concat "#" (List.map (fun t ->
+                 String.concat "|" (List.map string_of_ret (thread_rets t))) (!c).cf_threads) in
+             Printf.sprintf "= accepted quiescent=%d rets=%s %s" (if quiescent !c then 1 else 0) rets (string_of_state l))))
   | ["CDRAIN"; taker] ->
     (match do_match ses.lvl ses.gen (n_of_string "18446744073709551615") (oid_of_string taker) with
      | Some (l', g', r) -> ses.lvl <- l'; ses.gen <- g'; "= " ^ string_of_result r ^ " " ^ string_of_state l'
